@@ -131,6 +131,7 @@ class RefAtoms:
             for lab in other.xlabels[k]:
                 if lab not in self.xlabels[k]:
                     self.xlabels[k].append(lab)
+        fresh = ("x", next(RefAtoms._gen))
         conv = {}
         had_atom_extras = len(self.xlabels["atom"]) > 0 and len(self.atoms) > 0
         for oi, a in enumerate(other.atoms):
@@ -152,14 +153,16 @@ class RefAtoms:
             new_terms = []
             for t in other.terms[k]:
                 tk = t.tkey
-                if tk[0] == "t" and token_ns is not None:
-                    tk = ("t", (token_ns, tk[1][1] if isinstance(tk[1], tuple) else tk[1]))
+                if tk[0] == "t":
+                    # table-less kind: the other's type classes stay distinct from self's (default merge: fresh namespace per
+                    # call; explicit offsets: the namespace of the extend_types call they came from)
+                    tk = ("t", (token_ns if token_ns is not None else fresh, tk[1]))
                 new_terms.append(RTerm([conv[a] for a in t.atoms], tk, t.extras))
             newset = set(t.atoms for t in new_terms) | set(t.atoms[::-1] for t in new_terms)
             self.terms[k] = [t for t in self.terms[k] if t.atoms not in newset] + new_terms
             self.tabled[k] = self.tabled[k] or other.tabled[k]
 
-    def replicate(self, dims):
+    def replicate(self, dims, image_order=None):
         m = RefAtoms()
         cell = np.array(self.cell, float)
         m.cell = (cell * np.array(dims, float).reshape(3, 1)).tolist()
@@ -168,9 +171,12 @@ class RefAtoms:
         m.has_pair = self.has_pair
         n = len(self.atoms)
         img = 0
-        for i in range(dims[0]):
-            for j in range(dims[1]):
-                for k in range(dims[2]):
+        images = image_order or [(i, j, k) for i in range(dims[0]) for j in range(dims[1]) for k in range(dims[2])]
+        if sorted(images) != sorted((i, j, k) for i in range(dims[0]) for j in range(dims[1]) for k in range(dims[2])):
+            raise HarnessError("image order %r is not a permutation of the images of %r" % (images, dims))
+        for (i, j, k) in images:
+            if True:
+                if True:
                     shift = i * cell[0] + j * cell[1] + k * cell[2]
                     for a in self.atoms:
                         b = a.clone()
@@ -340,7 +346,7 @@ def compare(real, model, prefix, where, pos_tol=0.0, order="exact", coeff_eq=Non
         # multiset comparison of (atoms in model numbering, extras); then type resolution
         def key(t, conv=None):
             atoms = tuple(conv[a] for a in t.atoms) if conv is not None else t.atoms
-            return (atoms, tuple(sorted(t.extras.items())) if check_extras else ())
+            return (atoms, tuple(sorted((a, b) for a, b in t.extras.items() if b != ".")) if check_extras else ())
         from collections import defaultdict
         bucket = defaultdict(list)
         for t in mt:
